@@ -1,6 +1,9 @@
 package main
 
 import (
+	"crypto/md5"
+	"crypto/sha1"
+	"crypto/sha256"
 	"fmt"
 	"go/token"
 	"go/types"
@@ -519,7 +522,37 @@ func (x *Exec) stub(fn *ssa.Function, args []Val, site string) (Val, bool) {
 	case "fmt.Sprintf":
 		return x.sprintf(args[0], sliceVals(args[1])), true
 	case "fmt.Sprint", "fmt.Sprintln":
+		// native when every operand is a concrete scalar (a single operand: the %v rendering), else opaque
+		if ops := sliceVals(args[0]); len(ops) == 1 && name == "fmt.Sprint" {
+			if r, ok := x.sprintf(cstr("%v"), ops).(StrV); ok && !r.Opaque {
+				return r, true
+			}
+		}
 		return StrV{Opaque: true}, true
+	case "crypto/sha1.Sum", "crypto/sha256.Sum256", "crypto/md5.Sum":
+		// digests of concrete data are computed natively (a digest of symbolic data is not modelled)
+		bs := types.NewSlice(types.Typ[types.Byte])
+		txt, ok := x.convert(args[0], bs, types.Typ[types.String]).(StrV).concrete()
+		if !ok {
+			panic(unsupported{name + " of symbolic data"})
+		}
+		var sum []byte
+		switch name {
+		case "crypto/sha1.Sum":
+			d := sha1.Sum([]byte(txt))
+			sum = d[:]
+		case "crypto/sha256.Sum256":
+			d := sha256.Sum256([]byte(txt))
+			sum = d[:]
+		default:
+			d := md5.Sum([]byte(txt))
+			sum = d[:]
+		}
+		arr := &ArrV{E: make([]*Cell, len(sum))}
+		for i, b := range sum {
+			arr.E[i] = &Cell{V: cbv(8, uint64(b))}
+		}
+		return arr, true
 	case "fmt.Errorf":
 		return x.opaqueErr(), true
 	case "fmt.Fprintf", "fmt.Fprint", "fmt.Fprintln":
